@@ -16,7 +16,7 @@ from vmon.props import c08
 LEVEL = "exploration"
 SHARDS = {"quick": 16, "thorough": 16}
 KINDS = ("integer", "float", "enumerated", "boolean", "string", "binary", "abstime", "reltime")
-MUST = [f"fields.{k}" for k in KINDS] + ["directed.packets", "packets.depth>=2", "stream.items", "stream.error_objects", "outcome.unrecognized",
+MUST = [f"fields.{k}" for k in KINDS] + ["directed.packets", "documents.serialized_before_decoding", "packets.depth>=2", "stream.items", "stream.error_objects", "outcome.unrecognized",
                                           "outcome.ok", "read_as_int.evaluations", "selfcheck.documents", "mission.packets"]
 RULE = ("document = seeded IR (container tree depth<=3, fan-out<=3, nested/shared containers, all eight parameter-type "
         "kinds, every encoding, calibrators, criteria of every form, dynamic lengths) rendered by my writer and loaded "
@@ -136,6 +136,11 @@ def run_document(ctx, seed_key, profile=None, npackets=25, sample=False):
                       {"doc_seed": seed_key, "xml_head": xml[:1500].decode()})
         return
     defn = ld.value
+    if isinstance(seed_key, int) and seed_key % 3 == 0:
+        # a definition that has been serialized (to_xml_tree / write_xml) still decodes as before
+        from vmon.libutil import definition_to_bytes
+        monitored(definition_to_bytes, defn)
+        ctx.count("documents.serialized_before_decoding")
     raws = gen.gen_packets(rng, doc, npackets, deltas=(0, 0, 0, 0, 1, 2))
     outs = [ref.walk(doc, r) for r in raws]
     if sample:
